@@ -202,6 +202,13 @@ impl Iterator for TaikoGradualDifficulty {
     }
 
     fn nth(&mut self, n: usize) -> Option<Self::Item> {
+        if n >= self.len() {
+            // Fewer than `n + 1` values remain so the iterator is exhausted
+            self.idx = self.total_hits;
+
+            return None;
+        }
+
         let take = cmp::min(n, self.len().saturating_sub(1));
 
         for _ in 0..take {
